@@ -325,6 +325,10 @@ def run_job(plan, j, tier):
         elif st != 'SUCCESS':
             infra.append(ob)
     R.fails = fails
+    if fails and not any(m in o['description'] for o in infra for m in MODEL_LIMIT) and not any('no-body' in o['property'] for o in infra):
+        # a definite FAILURE with a counterexample; obligations left UNKNOWN behind it do not matter
+        R.status = 'failed'
+        return R
     if infra:
         R.status = 'undecided'
         R.reason = 'infrastructure obligation(s) not discharged: ' + '; '.join('%s %s' % (o['property'], o['description']) for o in infra[:5])
@@ -339,7 +343,7 @@ def run_job(plan, j, tier):
         R.reason = 'vacuous: reachability probe VF_PROBE did not fail (contradictory requires/assumptions or harness cannot return)'
         return R
     if j.loops and j.kind == 'contract':
-        if not any('loop' in o['description'].lower() and 'invariant' in o['description'].lower() for o in R.oblig):
+        if not any('_wrapped_for_contract_checking.' in o['property'] for o in R.oblig):
             R.reason = 'loop contract silently dropped: no loop-invariant obligations in the result'
             return R
     R.status = 'proved'
